@@ -125,7 +125,9 @@ func noWriteAfterPublish(c *core.Ctx) {
 				return false
 			}
 			hits := core.PathAvoidingFrom(g,
-				func(m ast.Node) bool { return core.NodeHas(m, func(x ast.Node) bool { return x == ast.Node(call) }) && !writes(m) },
+				func(m ast.Node) bool {
+					return core.NodeHas(m, func(x ast.Node) bool { return x == ast.Node(call) }) && !writes(m)
+				},
 				func(ast.Node) bool { return false }, writes)
 			c.Check(len(hits) == 0, rule, fmt.Sprintf("%s publishes `%s` through %s", f.Name(), v.Name(), core.ExprString(call.Fun)), call.Pos(),
 				"the path object is written through after it was stored in the table / handed to the clients: the update sender's goroutine reads the same object (under its own lock only) while this goroutine writes it — an unsynchronized concurrent read/write")
